@@ -550,7 +550,12 @@ class Accumulator:
             self._running_mean += (x - self._running_mean) / self._n
 
     def mean(self):
-        return self._running_mean if self._running_mean is not None else 0.0
+        if self._running_mean is None:
+            return 0.0
+        # push() updates the running mean in place, so return a copy
+        if hasattr(self._running_mean, 'copy'):
+            return self._running_mean.copy()
+        return self._running_mean
 
     def std(self):
         if self._n == 0:
